@@ -304,8 +304,15 @@ pub fn step_raw(rv: &mut RawVector, model: &mut Bits, op: &RawOp, step: usize, s
             *model = Bits::zeros(0);
         }
         RawOp::Clone => {
-            let c = rv.clone();
-            ensure!(c == *rv, "RawVector.clone", "clone != original");
+            // clone(), or clone_from() onto a vector with other content (nothing of the target may survive)
+            let c = if model.len % 2 == 0 {
+                rv.clone()
+            } else {
+                let mut t = RawVector::with_len(model.len / 2 + 67, true);
+                t.clone_from(rv);
+                t
+            };
+            ensure!(c == *rv, "RawVector.clone", "clone / clone_from != original");
             *rv = c;
         }
     }
@@ -558,8 +565,14 @@ pub fn step_int(iv: &mut IntVector, model: &mut IntModel, op: &IntOp, step: usiz
             st.regrown |= st.shrunk && !vals.is_empty();
         }
         IntOp::Clone => {
-            let c = iv.clone();
-            ensure!(c == *iv, "IntVector.clone", "clone != original");
+            let c = if iv.len() % 2 == 0 {
+                iv.clone()
+            } else {
+                let mut t = IntVector::with_len(iv.len() / 2 + 3, (iv.width() % 64) + 1, 1).expect("IntVector::with_len");
+                t.clone_from(iv);
+                t
+            };
+            ensure!(c == *iv, "IntVector.clone", "clone / clone_from != original");
             *iv = c;
         }
     }
